@@ -833,6 +833,56 @@ def targeted_request(rng, app):
     return rq
 
 
+# ------------------------------------------------------------------------------------------------------
+# "count race": two views in ONE slot whose predicates all hold for one fixed request, one with k predicates (often
+# from the heavy end of the default predicate order, e.g. custom), the other with k+1 (often from the light end).
+# The statement demands the one with more predicates; this family exercises the order arithmetic of
+# PredicateList.make (weights, score, division) far from the values the random populations reach.
+RACE_VALUES = [('xhr', False), ('request_method', 'GET'), ('path_info', '^/$'), ('request_param', 'a=1'),
+               ('header', 'X-A:1'), ('physical_path', '/'), ('is_authenticated', True), ('custom', [0])]
+RACE_REQ = {'path': '/', 'method': 'GET', 'qs': 'a=1', 'body': None, 'ctype': None, 'headers': [['X-A', '1']], 'accept': None,
+            'xhr': None, 'auth': True, 'permitted': True, 'custom': [0, 1, 2, 3]}
+RACE_CLASSES = [{'bases': [], 'impl': []}]
+RACE_TREE = [{'cls': 0, 'named': True, 'provides': []}]
+
+
+def race_case(names_a, names_b, swap=False, extra_custom=0):
+    d = dict(RACE_VALUES)
+
+    def mk(names, tag):
+        o = {k: (list(d[k]) if isinstance(d[k], list) else d[k]) for k in names}
+        if 'custom' in o and extra_custom and tag == 1:
+            o['custom'] = list(range(1 + extra_custom))
+        return {'ctx': None, 'name': '', 'route': None, 'opts': o, 'not': [], 'accept': None, 'perm': False, 'tag': tag}
+    regs = [mk(names_a, 1), mk(names_b, 2)]
+    if swap:
+        regs.reverse()
+    return {'classes': RACE_CLASSES, 'tree': RACE_TREE, 'routes': [], 'regs': regs, 'commit': 'auto', 'nf': True,
+            'req': json.loads(json.dumps(RACE_REQ))}
+
+
+def race_pairs(max_k):
+    names = [k for k, _ in RACE_VALUES]
+    for k in range(1, max_k + 1):
+        for a in itertools.combinations(names, k):
+            for b in itertools.combinations(names, k + 1):
+                yield a, b
+
+
+def gen_race_cases(rng, n):
+    names = [k for k, _ in RACE_VALUES]
+    for _ in range(n):
+        k = rng.choice([1, 1, 2, 2, 2, 3, 3, 4])
+        # heavy-biased small set against light-biased larger set (half of the time), uniform otherwise
+        if rng.random() < 0.5:
+            a = sorted(rng.sample(names[-(k + 2):], k), key=names.index)
+            b = sorted(rng.sample(names[:k + 3], k + 1), key=names.index)
+        else:
+            a = sorted(rng.sample(names, k), key=names.index)
+            b = sorted(rng.sample(names, k + 1), key=names.index)
+        yield race_case(a, b, swap=rng.random() < 0.5, extra_custom=rng.choice([0, 0, 1, 2]))
+
+
 def gen_cases(rng, napps, nreq, big=False):
     for _ in range(napps):
         app = gen_app(rng, big=big)
@@ -954,6 +1004,7 @@ def run(ctx):
     ncorpus = len(cases)
     cases += list(gen_cases(rng, napps, nreq))
     cases += list(gen_cases(rng, ctx.n(30, 600), nreq, big=True))
+    cases += list(gen_race_cases(rng, ctx.n(400, 3000)))
     results = []
     for case in cases:
         if ctx.time_left() < 60:
@@ -1125,6 +1176,13 @@ def search(ctx):
                 return {'violations': viol, 'searched': n, 'exhaustive': False}
         if viol:
             return {'violations': viol, 'searched': n, 'exhaustive': False}
+    for a, b in race_pairs(ctx.n(2, 3)):
+        if try_case(race_case(a, b)) and len(viol) >= 3:
+            return {'violations': viol, 'searched': n, 'exhaustive': False}
+        if ctx.time_left() < 90:
+            break
+    if viol:
+        return {'violations': viol, 'searched': n, 'exhaustive': False}
     for case in gen_cases(rng, ctx.n(150, 1500), 8):
         if try_case(case) and len(viol) >= 3:
             break
